@@ -69,3 +69,37 @@ Proof.
     eapply run_from_spec_repaired; eassumption.
   - destruct H as [log [esc Hr]]. exists log. eapply run_from_spec_repaired; eassumption.
 Qed.
+
+From CG Require Import Proofs.SubCompiled Proofs.SubTreeFacts Proofs.BashMeaningSub.
+
+(** Layer (c): the leaves are literals and within-word expressions made of literals.  The
+    interpreter is run directly (the within-word functions of the script included), not through
+    [Invocations.spec_run].  [sub_orders_ok]: the literal orders of the within-word tables are
+    valid, as [NoDup om] and [valid_literal_order] say of the main table; [subs_deterministic]:
+    at no state of the compiled automaton are two within-word automata with the same language
+    (under the same level) alternatives with different targets. *)
+Theorem bash_meaning_subword :
+  forall pick fuel v c om os nd a (benv : BashSem.env) (en : Meaning.env) ws p,
+    subw_tree (v_expr v) = true -> alts_nonempty (v_expr v) = true ->
+    compile_valid pick fuel v = Ok c ->
+    all_tables Bash c om os = Ok (nd, a) -> NoDup om -> valid_literal_order (c_main c) om = true ->
+    sub_orders_ok c os -> subs_deterministic c ->
+    C01_domain (v_expr v) = true ->
+    BashSem.e_ignore_case benv = false -> BashSem.e_wordbreaks benv = Meaning.e_wordbreaks en ->
+    breaks_ok (BashSem.e_wordbreaks benv) = true -> plain p = true -> printable_str p = true ->
+    ambiguous_run en (start (v_expr v)) ws = false ->
+    match complete (v_expr v) en ws p with
+    | None => run_from Repaired (d_start (c_main c)) a benv ws p = Ok (mkresult 1 [] [])
+    | Some (req, al) =>
+        exists reply, run_from Repaired (d_start (c_main c)) a benv ws p = Ok (mkresult 0 reply [])
+                      /\ (forall x, In x reply <-> In x req) /\ incl req al
+    end.
+Proof.
+  intros pick fuel v c om os nd a benv en ws p Hsub Hne Hc Hall Hord Hvalid Hsords Hdet Hdom Hic Hwb Hbok Hplain Hprint Hamb.
+  destruct (compiled_facts pick fuel v c Hne Hc) as [HL [Hwf [Hinp Htrim]]].
+  assert (Hstrip : forall ms, (forall m, In m ms -> String.prefix p m = true) ->
+                              strip_reply benv p ms = Ok (map (Meaning.strip (Meaning.e_wordbreaks en) p) ms)).
+  { intros ms Hms. rewrite <- Hwb. apply strip_reply_plain; assumption. }
+  apply (run_meaning_sub c (v_expr v) om os nd a benv en p Hsub Hne HL Hwf Hinp Htrim Hall Hord Hvalid Hdom
+           (fun k l => sub_facts pick fuel v c k l Hne Hc) Hdet Hsords Hic Hprint Hstrip ws Hamb).
+Qed.
